@@ -44,7 +44,8 @@ def jobs(tier, seed):
                     if sh["type"] == "margin":
                         J.append({"family": fam, "args": a})
                         continue
-                    for start in range(len(SH.MESHES[mesh][0])):
+                    # every vertex a real query history can leave in the cache: the vertices used by triangles
+                    for start in sorted(set(i for tri in SH.MESHES[mesh][1] for i in tri)):
                         b = dict(a)
                         b["start_idx"] = start
                         J.append({"family": fam, "args": b})
